@@ -17,7 +17,12 @@ from cdd.shared.cst_utils import (
     UnchangingLine,
     ast2cst,
 )
-from cdd.shared.pure_utils import count_iter_items, omit_whitespace, tab
+from cdd.shared.pure_utils import (
+    balanced_parentheses,
+    count_iter_items,
+    omit_whitespace,
+    tab,
+)
 from cdd.shared.source_transformer import to_code
 
 
@@ -199,6 +204,31 @@ def maybe_replace_doc_str_in_function_or_class(node, cst_idx, cst_list):
     return changed
 
 
+def find_end_of_function_params(prototype, params_start_idx):
+    """
+    Find where the parameters of a function prototype end: at the parenthesis matching the one which opens them.
+    (a `->`, `:` or `)` may well occur inside a default value, an annotation or the return annotation)
+
+    :param prototype: The function prototype verbatim, e.g., `def f(a=')', b: Literal['->']='->') -> int:`
+    :type prototype: ```str```
+
+    :param params_start_idx: Index of the parenthesis which opens the parameters
+    :type params_start_idx: ```int```
+
+    :return: Index just after the closing parenthesis; -1 if not found
+    :rtype: ```int```
+    """
+    return next(
+        (
+            idx + 1
+            for idx in range(params_start_idx + 1, len(prototype))
+            if prototype[idx] == ")"
+            and balanced_parentheses(prototype[params_start_idx : idx + 1])
+        ),
+        -1,
+    )
+
+
 def maybe_replace_function_return_type(new_node, cur_ast_node, cst_idx, cst_list):
     """
     Maybe replace the function's return type
@@ -232,8 +262,17 @@ def maybe_replace_function_return_type(new_node, cur_ast_node, cst_idx, cst_list
         :return: The new function prototype
         :rtype: ```str```
         """
+        params_end: int = find_end_of_function_params(
+            statement, statement.find("(", statement.find("def ") + len("def "))
+        )
         return "{type_less}:".format(
-            type_less=statement[: statement.rfind("->")].rstrip()
+            type_less=statement[
+                : (
+                    statement.rfind("->")
+                    if params_end == -1
+                    else statement.find("->", params_end)
+                )
+            ].rstrip()
         )
 
     def add_return_typ(statement):
@@ -334,7 +373,14 @@ def maybe_replace_function_args(new_node, cur_ast_node, cst_idx, cst_list):
             return_type = cst_list[cst_idx].value[return_type + len("->") : last_col]
         else:
             return_type = None
-        func_end = cst_list[cst_idx].value.rfind(")", None, func_end) + 1
+        params_end: int = find_end_of_function_params(
+            cst_list[cst_idx].value, arg_start_idx
+        )
+        func_end = (
+            cst_list[cst_idx].value.rfind(")", None, func_end) + 1
+            if params_end == -1
+            else params_end
+        )
 
         # returns="" if return_type is None else return_type
 
@@ -430,6 +476,7 @@ __all__ = [
     "Delta",
     "debug_doctrans",
     "find_cst_at_ast",
+    "find_end_of_function_params",
     #    "maybe_replace_body",
     "maybe_replace_doc_str_in_function_or_class",
     "maybe_replace_function_args",
